@@ -128,6 +128,8 @@ def gen_scenario(rng):
         for nc in ([False, True] if rng.random() < 0.6 else [rng.random() < 0.3]):
             requests.append({'obj': o, 'conf': c, 'no_color': nc, 'mode': mode, 'via': via,
                              'long_lived_conf': long_lived})
+            if objects[o]['kind'] == 'rec' and rng.random() < 0.5:
+                requests[-1]['touch_columns'] = True
             if via in ('explicit', 'palette_class', 'custom_palette', 'custom_palette2') and not long_lived and rng.random() < 0.4:
                 requests[-1]['discard_conf'] = True
             if via == 'global' and objects[o]['kind'] not in ('hdoc', 'ppwrap') and rng.random() < 0.5:
